@@ -1122,6 +1122,42 @@ def common_summaries():
         ex.write_path(st, a.cell, a.path, argv[1])
         return [(st, old)]
 
+    @reg(r'^(std|core)::mem::take::<(.*)>$')
+    def mem_take(ex, st, fn, argv):
+        ty = re.match(r'^(?:std|core)::mem::take::<(.*)>$', fn).group(1)
+        a = argv[0]
+        old = ex.read_path(st, a.cell, a.path)
+        bt = last_seg(strip_generics(ty))
+        if bt in ('String',):
+            dflt = Str(str_lit('""'))
+        elif ty in INT_TYPES:
+            dflt = Int(0, INT_TYPES[ty][0], INT_TYPES[ty][1])
+        elif ty == 'bool':
+            dflt = Bool(False)
+        elif bt == 'Option':
+            dflt = mk_option()
+        else:
+            return NotImplemented
+        ex.write_path(st, a.cell, a.path, dflt)
+        return [(st, old)]
+
+    @reg(r'^(std::option::)?Option::<&(mut )?.*>::(cloned|copied)$')
+    def opt_cloned(ex, st, fn, argv):
+        o = as_enum(ex, st, argv[0])
+        outs = []
+        for (s, c, some) in ex.fork_on(st, o.disc_bv() == 1, o):
+            if some:
+                v = c.payloads[1].fields[0]
+                v = deref(ex, s, v)
+                if isinstance(v, SenderVal):
+                    v.chan.senders += 1
+                    outs.append((s, mk_option(SenderVal(v.chan))))
+                else:
+                    outs.append((s, mk_option(value_copy(v))))
+            else:
+                outs.append((s, mk_option()))
+        return outs
+
     @reg(r'^std::mem::drop::<|^drop::<')
     def mem_drop(ex, st, fn, argv):
         v = argv[0]
